@@ -65,7 +65,7 @@ var alphabets = map[string][]string{
 	"text/css":               {"a", "{", "}", ":", ";", "(", ")", "\"", "'", "/", "*", "@", "#", ".", ",", "-", "+", "\\", " ", "0", "e", "%", "!", "url(", "calc(", "rgb(", "U+", "\n", "/*", "*/", "!important", "@media", "--x", "px", "font:", "margin:", "background:", "\x00", "\x80", "<!--"},
 	"application/javascript": {"a", "0", "(", ")", "[", "]", "{", "}", ";", ",", ".", "=", "+", "-", "*", "/", "\"", "'", "`", "\\", "$", "<", ">", "!", "?", ":", "=>", " ", "\n", "function ", "return ", "var ", "class ", "if", "for", "${", "async ", "yield ", "let ", "\x00", "\x80", " ", "#", "@", "/*", "//", "in ", "of ", "new ", "...", "?.", "??", "**", "++", "case ", "else ", "try", "catch", "import ", "export ", "static ", "get ", "0x", "1e", "n", "_"},
 	"application/json":       {"{", "}", "[", "]", ":", ",", "\"", "\\", "0", "-", ".", "e", "true", "null", " ", "1", "\n", "\x00", "\x80", "a", "+", "E", "\\u", "false"},
-	"image/svg+xml":          {"<", ">", "/", "!", "?", "-", "=", "\"", "'", "&", ";", "a", " ", "[", "]", "<![CDATA[", "]]>", "<svg", "<path d=\"", "M", "0", "z", "A", ".", "e", ",", "<style>", "</style>", "style=\"", "<!--", "-->", "<?xml", "?>", "<!DOCTYPE", "fill=\"", "#", "viewBox=\"", "<metadata>", "xlink:href=", "\x00", "\x80", "<foreignObject>", "<defs/>", "1e9", "-", "L", "c"},
+	"image/svg+xml":          {"<", ">", "/", "!", "?", "-", "=", "\"", "'", "&", ";", "a", " ", "[", "]", "<![CDATA[", "]]>", "<svg", "<path d=\"", "M", "0", "z", "A", ".", "e", ",", "<style>", "</style>", "style=\"", "<!--", "-->", "<?xml", "?>", "<!DOCTYPE", "fill=\"", "#", "viewBox=\"", "<metadata>", "xlink:href=", "\x00", "\x80", "<foreignObject>", "<defs/>", "1e9", "-", "L", "c", "<defs", "</defs>", "<metadata", "contentStyleType=\"", "<x:y"},
 	"text/xml":               {"<", ">", "/", "!", "?", "-", "=", "\"", "'", "&", ";", "a", " ", "[", "]", "<![CDATA[", "]]>", "<a", "</a>", "<!--", "-->", "<?xml", "?>", "<!DOCTYPE", "&amp;", "&#", "x", "\n", "\x00", "\x80", "\t"},
 }
 
